@@ -45,6 +45,14 @@ Theorem same_request_same_fate : forall s c recs i j ri rj oi oj k,
   so_kept oi = so_kept oj.
 Proof. exact same_request. Qed.
 
+(* Fields other than status / stream_id / request_id (cancelled, method,
+   http_status, claims ...) never influence the outcome: no record is exempted
+   from, or subjected to, the decision because of them. *)
+Theorem extra_fields_do_not_matter : forall s c r r',
+  s_status r = s_status r' -> s_stream r = s_stream r' -> s_request r = s_request r' ->
+  keep s c r = keep s c r'.
+Proof. exact extras_irrelevant. Qed.
+
 (* With sampling active (rate < 1), every kept non-error record carries exactly
    the configured rate. *)
 Theorem kept_non_error_has_rate : forall s c recs i r o,
@@ -165,10 +173,10 @@ Proof. exact model_meets_spec. Qed.
    an error, drops a non-error record and keeps-and-stamps another one *)
 Example sampler_premises_satisfiable :
   exists s, new_sampler 4602678819172646912%N = Some s /\ rate_ge1 (sp_rate s) = false /\
-  let recs := [ {| s_status := Some (str "ok"); s_stream := Some (str "a"); s_request := None |};
-                {| s_status := Some (str "error"); s_stream := Some (str "a"); s_request := None |};
-                {| s_status := Some (str "ok"); s_stream := Some (str "a"); s_request := Some (str "r2") |};
-                {| s_status := Some (str "ok"); s_stream := None; s_request := Some (str "r2") |} ] in
+  let recs := [ {| s_status := Some (str "ok"); s_stream := Some (str "a"); s_request := None; s_extra := [] |};
+                {| s_status := Some (str "error"); s_stream := Some (str "a"); s_request := None; s_extra := [] |};
+                {| s_status := Some (str "ok"); s_stream := Some (str "a"); s_request := Some (str "r2"); s_extra := [(str "cancelled", str "true")] |};
+                {| s_status := Some (str "ok"); s_stream := None; s_request := Some (str "r2"); s_extra := [(str "cancelled", str "true")] |} ] in
   map so_kept (run_sampler s 0 recs) = [false; true; false; true].
 Proof. eexists. split; [vm_compute; reflexivity|]. split; vm_compute; reflexivity. Qed.
 
